@@ -106,6 +106,25 @@ def run(run):
             # order sensitivity: permuting the byte arguments must follow
             check('srv', key, secret, 'permuted')
     run.count('searched_shapes_found', len(found))
+    # ... and digests that end in zero bytes (a hand-written negation carries
+    # through them): the last one, two and three bytes zero, either sign
+    tails = {}
+    want_tails = {'%s,tail%d' % (s_, n_) for s_ in ('pos', 'neg')
+                  for n_ in (1, 2)}
+    i = 0
+    while len(tails) < len(want_tails) and i < 4000000:
+        i += 1
+        secret = (i * 0x9E3779B97F4A7C15 % 2 ** 128).to_bytes(16, 'big')
+        d = hashlib.sha1(b'tl' + secret + b'k').digest()
+        if d[-1]:
+            continue
+        n_ = 2 if d[-2] == 0 else 1
+        key = '%s,tail%d' % ('neg' if d[0] & 0x80 else 'pos', n_)
+        if key not in tails:
+            tails[key] = 1
+            check('tl', secret, b'k', 'searched ' + key)
+            run.seen('digest_tails', key)
+    run.count('searched_tails_found', len(tails))
 
     ids = ['', '-', 'a', 'é€', '\U0001F600', 'x' * 20, '0123456789abcdef',
            ' leading', 'trailing ']
@@ -373,6 +392,7 @@ def run(run):
                     'hash': javahash.server_hash(sid, secret, key)})
     run.require('digest_shapes', 6)
     run.require('calling_styles', 5)
+    run.require('searched_tails_found', 4)
     if run.shard == 0:
         run.require('hashes_with_debug_logging', 100)
         run.require('reactor_joins_checked', 6)
